@@ -281,6 +281,7 @@ def check(ctx):
     check_log_file(ctx)
     check_retirement(ctx)
     c17.check_recover(ctx)
+    c17.check_current(ctx)        # CURRENT switches atomically: no crash point leaves the directory without a valid CURRENT
     c17.check_edit_numbers(ctx)   # the edit that retires a log is not overwritten with the old numbers
     c17.check_snapshot(ctx)       # the MANIFEST every open writes afresh names every file of every level
     from . import c02, c13
